@@ -1,5 +1,6 @@
 import SSV.Proofs.Handshake
 import SSV.Proofs.HandshakeHttp
+import SSV.Proofs.HandshakeText
 /-
 C07 — property theorems (statements only live here; helper lemmas in SSV/Proofs/Handshake*.lean).
 -/
@@ -251,13 +252,18 @@ theorem none_faithful (a : Addr) (ha : a.wf = true) (payload early : Bytes) (cs 
 
 /-- `transparent_after_handshake` (HTTP CONNECT server, any fragmentation, any number of 407 rounds):
 when `ServerHandle` accepts a CONNECT, what the returned connection delivers (`s'.stream`: the bufio
-read-ahead first, then the transport) is exactly what the client sent minus a prefix that ends at a line
-end (the request head(s)): nothing behind the head is lost, duplicated or reordered.
+read-ahead first, then the transport) is exactly what the client sent minus EXACTLY the request head(s):
+`heads` are the raw lines of one head per request (`IsHead`: no line contains a line feed, every line but the
+last is non-blank, the last is blank — i.e. each head is the shortest prefix ending in a blank line), every
+request but the last was answered with 407 and nothing else was written. Nothing behind the head is lost,
+duplicated or reordered.
 The proof needs the regenerated fact `connectKeepsReadAhead = true`: it does not elaborate against a tree
 whose CONNECT branch builds the pending connection on the raw connection (finding F5). -/
 theorem transparent_after_handshake (tk : Option (List (Bytes × Bytes))) (s s' : St) (u : Bytes) (a : Addr)
     (h : serverHandleH C07.connectKeepsReadAhead tk s = (.ok (u, a), s')) :
-    ∃ consumed, s.stream = consumed ++ s'.stream ∧ consumed.getLast? = some LF := by
+    ∃ heads : List (List Bytes), heads ≠ [] ∧ (∀ hd ∈ heads, IsHead hd) ∧
+      s.stream = (heads.map headBytes).flatten ++ s'.stream ∧
+      s'.out = s.out ++ (List.replicate (heads.length - 1) C07.status407).flatten := by
   have hk : C07.connectKeepsReadAhead = true := by decide
   rw [hk] at h
   unfold serverHandleH at h
@@ -276,7 +282,42 @@ theorem transparent_after_handshake (tk : Option (List (Bytes × Bytes))) (s s' 
         simp [hp, keepReadAhead] at h
         obtain ⟨_, h2⟩ := h
         subst h2
-        exact serverLoopH_spec tk _ s s1 (u1, hd) hl
+        exact serverLoopH_heads tk _ s s1 (u1, hd) hl
+
+/-- `transparent_after_handshake`, client side: when `ClientConnect` succeeds, the returned connection delivers
+exactly what the proxy sent behind the response head (far side speaking first included), and the client
+wrote exactly its CONNECT head. -/
+theorem transparent_after_handshake_client (target : Addr) (hdr : Bytes) (s s' : St)
+    (h : clientConnectH target hdr s = (.ok (), s')) :
+    ∃ raw, IsHead raw ∧ s.stream = headBytes raw ++ s'.stream := by
+  unfold clientConnectH at h
+  simp only [C07.connectParts, bind_def, write_def] at h
+  cases hr : readHeadM { inp := s.inp, out := s.out ++ _, buf := s.buf } with
+  | mk res s1 =>
+    rw [hr] at h
+    cases res with
+    | error e => simp at h
+    | ok ls =>
+      obtain ⟨_, raw, hraw, e1⟩ := readHeadM_head _ _ _ hr
+      refine ⟨raw, hraw, ?_⟩
+      have hs : s'.stream = s1.stream := by
+        simp only [] at h
+        cases ls with
+        | nil => simp at h
+        | cons sl hl =>
+          simp only [liftE_def, bind_def] at h
+          cases hps : parseStatusLine sl with
+          | error e => simp [hps] at h
+          | ok code =>
+            simp only [hps] at h
+            cases hph : parseHeaders hl with
+            | error e => simp [hph] at h
+            | ok hs =>
+              simp only [hph] at h
+              split at h
+              · simp at h
+              · simp at h; rw [← h]
+      rw [hs]; exact e1
 
 /-- Proceed() on an accepted CONNECT writes the 200 line and leaves the tunnel stream alone. -/
 theorem proceedH_reply (s : St) :
@@ -287,26 +328,46 @@ theorem proceedH_reply (s : St) :
 -- re-derived on every run by the engine's probes `f5-one-segment` / `f5-cut-inside-early` against the real code;
 -- on such a tree `Gen.C07.connectKeepsReadAhead = false` and `transparent_after_handshake` does not elaborate.
 
-/-
-NOT PROVED (stated here so that the gap is visible; tied to the code by the correspondence engine only):
+/-- `connect_faithful`: conn.ParseAddr ∘ conn.Addr.String is the identity on every well-formed address an HTTP
+CONNECT target can carry (`httpCarriable`, decidable: domain names without ':' '[' ']' / CTL / space and
+characters outside the modelled URL set that do not spell an IP literal; every IPv4 address; IPv6 addresses
+whose netip text parses back — evaluated by the engine on every generated address, never false so far).
+The excluded names are run against the real client → server pair on every run (evidence notes). -/
+theorem connect_faithful (a : Addr) (hw : a.wf = true) (hc : httpCarriable a = true) :
+    parseAddr (addrString a) = some a :=
+  parseAddr_addrString a hw hc
 
-  connect_faithful : ∀ a, a.wf → httpCarriable a → parseAddr (addrString a) = some a
-     (conn.ParseAddr ∘ conn.Addr.String is the identity on the addresses a CONNECT target can carry; the excluded
-      domain names — containing ':' '[' ']' / CTL / space, or spelling an IP literal — are run against the real
-      client→server pair on every run and the outcomes are printed in the evidence notes; the model's
-      addrString / parseAddr are compared with conn.Addr.String / conn.ParseAddr on 3000 generated addresses per
-      run, and the IPv6 text round trip inside `httpCarriable` is evaluated on each of them).
-     Missing: decimal and dotted-quad print/parse round-trip lemmas, net.SplitHostPort on `host ":" digits`.
+/-- the first Proxy-Authorization value that has the Basic scheme (what serverHandleBasicAuth looks at) -/
+def firstBasic (hs : List (Bytes × Bytes)) : Option Bytes :=
+  ((hs.filter (fun h => h.1 == str "proxy-authorization")).map (·.2)).find?
+    (fun v => v.length > 6 && lower (v.take 6) == str "basic ")
 
-  basic_auth_gate : for an injective token encoding `enc` and user names without ':',
-       basicAuth hs (tokenMap enc users) = some u  ↔  the first Basic value of `hs` is enc (u ":" p) for a listed (u, p)
-     Missing: the lemma u ++ ":" ++ p = u' ++ ":" ++ p' ∧ ':' ∉ u, u' → u = u' ∧ p = p' and injectivity of base64.
-     The engine's oracle checks the gate on every HTTPS case (wrong / missing / near-miss credentials incl. shifted colons).
+/-- `basic_auth_gate`: for an injective token encoding (base64) and configured user names without ':'
+(enforced by NewProxyServer), a request presenting user-pass `u:p` is honoured iff `(u, p)` is a configured
+pair, and then attributed to `u`; a request without a Basic value is never honoured. -/
+theorem basic_auth_gate (enc : Bytes → Bytes) (henc : ∀ a b, enc a = enc b → a = b)
+    (users : List (Bytes × Bytes)) (hu : ∀ x ∈ users, COLON ∉ x.1) (hs : List (Bytes × Bytes)) :
+    (firstBasic hs = none → basicAuth hs (tokenMap enc users) = none) ∧
+    (∀ v u p, firstBasic hs = some v → v.drop 6 = enc (u ++ [COLON] ++ p) → COLON ∉ u →
+      basicAuth hs (tokenMap enc users) = if (u, p) ∈ users then some u else none) := by
+  constructor
+  · intro h; unfold basicAuth; unfold firstBasic at h; rw [h]
+  · intro v u p h ht hcu
+    unfold basicAuth; unfold firstBasic at h; rw [h]
+    simp only [ht]
+    exact lookupToken_spec enc henc users hu u p hcu
 
-  transparent_after_handshake, client side (the 2xx head followed by server-first data): modelled (`clientConnectH`,
-     stream = bufio read-ahead ++ transport), compared on every httpc case; the conservation proof is the same
-     `readHeadM_spec` (SSV/Proofs/HandshakeHttp.lean) but is not stated as a property theorem here.
--/
+-- hypotheses satisfiable: identity is an injective encoding; a carriable address
+example : (∀ a b : Bytes, id a = id b → a = b) := fun _ _ h => h
+example : httpCarriable (.dom [97, 46, 98] 443) = true ∧ (Addr.dom [97, 46, 98] 443).wf = true := by decide
+example : httpCarriable (.v4 [1, 2, 3, 4] 80) = true := by decide
+
+/-- Tie of the model's assumption "connections are independent" (each theorem above speaks about ONE connection):
+the regenerated list of package-level variables and long-lived client/server object fields of socks5 /
+httpproxy / ssnone that are not recognisably immutable is empty. A pool, a package-level buffer or a scratch
+field shared across handshakes makes this side condition fail; the engine's `interleaved` family then looks
+for the failing schedule. -/
+theorem connections_share_no_state : C07.sharedState = [] := by decide
 
 /-- a user found by the server's lookup is a listed user with that very name -/
 theorem configured_user_is_listed (users : List (Bytes × Bytes)) (name u pw : Bytes)
@@ -334,3 +395,7 @@ end SSV.C07
 #print axioms SSV.C07.none_faithful
 #print axioms SSV.C07.transparent_after_handshake
 #print axioms SSV.C07.proceedH_reply
+#print axioms SSV.C07.connections_share_no_state
+#print axioms SSV.C07.transparent_after_handshake_client
+#print axioms SSV.C07.connect_faithful
+#print axioms SSV.C07.basic_auth_gate
